@@ -20,7 +20,7 @@ ACTS_BLOCK = ACTS + ["MInitSpawn", "WBlock", "WReacquire"]
 
 def validate(ctx, exe, args, trace, what):
     return vlib.record_and_validate(ctx, exe, args, trace, "ThreadPool", "Trace_ThreadPool.tla", "Trace_ThreadPool.cfg", what,
-                                    timeout=900)
+                                    timeout=300 if ctx.quick() else 2400)
 
 
 def run(ctx):
